@@ -52,6 +52,8 @@ type c01Model struct {
 	KV       int       // index into c01KVs
 	Alt      bool      // web-1 re-registered (same node and id) with another prefix tag and port
 	CatDown  bool      // fault: catalog lookups (/v1/catalog/service/<name>) answer 500
+	Epoch    int       // bumped when Consul is restored from a snapshot: its index restarts at a low value
+	BadTag   bool      // web-1@n2 carries a plain tag that cannot be written into a route command (say "hi")
 }
 
 // tag and port an instance currently advertises
@@ -166,7 +168,8 @@ func (c *c01Consul) meta(w http.ResponseWriter) {
 
 func (c *c01Consul) block(ep string, r *http.Request) {
 	idx, _ := strconv.ParseUint(r.URL.Query().Get("index"), 10, 64)
-	for idx >= c.index && !c.closed {
+	// a client that asks with an index from before a restore is answered at once (the index went backwards)
+	for idx == c.index && !c.closed {
 		c.parked[ep] = idx
 		c.cond.Broadcast()
 		c.cond.Wait()
@@ -197,7 +200,11 @@ func (c *c01Consul) serve(w http.ResponseWriter, r *http.Request) {
 		for i, in := range c01Insts {
 			if in.svc == name && c.m.Reg[i] {
 				tag, port := c.m.adv(i)
-				out = append(out, map[string]interface{}{"Node": in.node, "Address": in.addr, "ServiceID": in.id, "ServiceName": in.svc, "ServiceAddress": "", "ServicePort": port, "ServiceTags": []string{tag, "v1"}})
+				tags := []string{tag, "v1"}
+				if i == 1 && c.m.BadTag {
+					tags = append(tags, "say \"hi\"")
+				}
+				out = append(out, map[string]interface{}{"Node": in.node, "Address": in.addr, "ServiceID": in.id, "ServiceName": in.svc, "ServiceAddress": "", "ServicePort": port, "ServiceTags": tags})
 			}
 		}
 		c.meta(w)
@@ -246,6 +253,9 @@ func (c *c01Consul) settle() bool {
 
 func (c *c01Consul) apply(m c01Model) {
 	c.mu.Lock()
+	if m.Epoch != c.m.Epoch {
+		c.index = 2 // restored from a snapshot: far below anything a watcher has seen
+	}
 	c.m = m
 	c.index++
 	c.cond.Broadcast()
@@ -300,6 +310,8 @@ func c01Events() []c01Event {
 		c01Event{"toggle-service-maintenance:web-1", func(m c01Model) c01Model { m.SvcMnt = !m.SvcMnt; return m }},
 		c01Event{"re-register-with-other-prefix-and-port:web-1", func(m c01Model) c01Model { m.Alt = !m.Alt; return m }},
 		c01Event{"toggle-fault:catalog-lookups-fail", func(m c01Model) c01Model { m.CatDown = !m.CatDown; return m }},
+		c01Event{"consul-restored-from-snapshot:index-restarts-low", func(m c01Model) c01Model { m.Epoch = 1 - m.Epoch; return m }},
+		c01Event{"toggle-inexpressible-plain-tag:web-1@n2", func(m c01Model) c01Model { m.BadTag = !m.BadTag; return m }},
 	)
 	for k := range c01KVs {
 		k := k
@@ -317,6 +329,9 @@ func c01Expected(m c01Model, strict bool, accepted []string) (string, bool) {
 	var lines []string
 	webUp := false
 	for i, in := range c01Insts {
+		if i == 1 && m.BadTag {
+			continue // a registration that cannot be expressed is dropped on its own (C14); the others are unaffected
+		}
 		if m.healthy(i, strict, accepted) {
 			tag, port := m.adv(i)
 			src := strings.TrimPrefix(tag, "urlprefix-")
@@ -361,7 +376,7 @@ func TestVerifC01Pipeline(t *testing.T) {
 		accepted []string
 	}{{"one/passing", false, []string{"passing"}}, {"all/passing", true, []string{"passing"}}, {"one/passing+warning", false, []string{"passing", "warning"}}, {"all/passing+warning", true, []string{"passing", "warning"}}}
 	L := ev.Begin("C01", "c01-pipeline", "model_checking",
-		"explicit-state BFS over registry histories through the real pipeline consul.NewBackend -> ServiceMonitor.Watch / watchKV -> main.watchBackend -> route.SetTable against an in-process fake Consul HTTP API (agent/self, health/state/any and kv with blocking queries on the index, catalog/service): 3 instances of 2 services on 2 nodes; events: (de)register, check flips to passing/warning/critical, a second check for strict mode, agent down/up per node, node and service maintenance, re-registration of an instance with another prefix and port, a fault toggle (catalog lookups answer 500; while it is on only 'no unhealthy instance is routed' is asserted), KV override in {none, route del, route add, route weight, syntax error, two routes with a register= alias}; per checksRequired mode and accepted-status list. After every event the harness waits for causal quiescence (both watchers parked on blocking queries at the current index, then one state-preserving index bump). invariant: active table == instances healthy under the stated rule + KV commands on top; with an invalid KV text the last good table stays. non-trivial = transition that changes the set of healthy instances or the KV text")
+		"explicit-state BFS over registry histories through the real pipeline consul.NewBackend -> ServiceMonitor.Watch / watchKV -> main.watchBackend -> route.SetTable against an in-process fake Consul HTTP API (agent/self, health/state/any and kv with blocking queries on the index, catalog/service): 3 instances of 2 services on 2 nodes; events: (de)register, check flips to passing/warning/critical, a second check for strict mode, agent down/up per node, node and service maintenance, re-registration of an instance with another prefix and port, a Consul restore (the index restarts low), an instance gaining a plain tag no route command can carry, a fault toggle (catalog lookups answer 500; while it is on only 'no unhealthy instance is routed' is asserted), KV override in {none, route del, route add, route weight, syntax error, two routes with a register= alias}; per checksRequired mode and accepted-status list. After every event the harness waits for causal quiescence (both watchers parked on blocking queries at the current index, then one state-preserving index bump). invariant: active table == instances healthy under the stated rule + KV commands on top; with an invalid KV text the last good table stays. non-trivial = transition that changes the set of healthy instances or the KV text")
 	maxDepth := 3
 	if ev.Thorough() {
 		maxDepth = 4
